@@ -48,7 +48,17 @@ func ExtraFixtures() []Fixture {
 				var sb strings.Builder
 				sb.WriteString("HDR*1~\n")
 				for i := 0; i < n; i++ {
-					fmt.Fprintf(&sb, "DAT*%s*%s*%s~\n", strings.NewReplacer("*", "+", "~", "-").Replace(TrickyWord(r)), numOrBad(r), word(r))
+					fmt.Fprintf(&sb, "DAT*%s*%s*%s", strings.NewReplacer("*", "+", "~", "-").Replace(TrickyWord(r)), numOrBad(r), word(r))
+					if r.Chance(0.3) { // wide segments: undeclared trailing elements, total count around powers of two
+						totals := []int{4, 7, 8, 9, 15, 16, 17, 31, 32, 33, 63, 64, 65, 66, 100, 127, 128, 129, 130}
+						for k := totals[r.Pick(len(totals))] - 3; k > 0; k-- {
+							sb.WriteString("*")
+							if r.Chance(0.3) {
+								sb.WriteString("e")
+							}
+						}
+					}
+					sb.WriteString("~\n")
 				}
 				if r.Chance(0.5) {
 					sb.WriteString("TRL*9~\n")
@@ -83,6 +93,26 @@ func ExtraFixtures() []Fixture {
 						sb.WriteString(",")
 					}
 					fmt.Fprintf(&sb, `{"a":%q,"b":%q,"c":%q}`, TrickyWord(r), numOrBad(r), TrickyWord(r))
+				}
+				sb.WriteString("]")
+				return []byte(sb.String())
+			}},
+		// javascript members: ordinary values, per-record failures (throw, NaN, undefined) and results
+		// that need care when exported (objects, arrays, promises - settled and never settling)
+		{Format: "json", Schema: `{` + hdr("json") + `, "transform_declarations": { "FINAL_OUTPUT": { "xpath": "/*", "object": {
+  "a": { "custom_func": { "name": "javascript", "args": [ {"const": "x + '!'"}, {"const": "x"}, {"xpath": "a"} ] } },
+  "b": { "custom_func": { "name": "javascript", "args": [ {"const": "if (x === 'bad') { throw new Error('boom') }; parseInt(x, 10)"}, {"const": "x"}, {"xpath": "b"} ] } },
+  "c": { "custom_func": { "name": "javascript_with_context", "args": [ {"const": "var n = JSON.parse(_node); [n.c, typeof n.b, {k: n.a}]"} ] } },
+  "d": { "custom_func": { "name": "javascript", "args": [ {"const": "x === 'p' ? Promise.resolve(1) : x === 'q' ? new Promise(function(){}) : x === 'r' ? Promise.reject(new Error('no')) : x === 'u' ? undefined : x === 'z' ? 0/0 : x"}, {"const": "x"}, {"xpath": "c"} ], "ignore_error": true } } } } } }`,
+			Gen: func(r *Rng, n int) []byte {
+				cs := []string{"p", "q", "r", "u", "z", "w", "héllo", ""}
+				var sb strings.Builder
+				sb.WriteString("[")
+				for i := 0; i < n; i++ {
+					if i > 0 {
+						sb.WriteString(",")
+					}
+					fmt.Fprintf(&sb, `{"a":%q,"b":%q,"c":%q}`, TrickyWord(r), numOrBad(r), cs[r.Pick(len(cs))])
 				}
 				sb.WriteString("]")
 				return []byte(sb.String())
